@@ -26,10 +26,15 @@ func format(tr *tokenReader, w io.Writer) error {
 				ew.SafeWrite([]byte{'\n'})
 			}
 			// opcode, next tokens are 'opcode', '(', hex or string lit, ')', ']'
+			// flags, next tokens are 'flags', ']'
 			opCodeBytes := t.concrete
-			for j := 0; j < 5; j++ {
+			attributeTokens := 5
+			for j := 0; j < attributeTokens; j++ {
 				tr.Next()
 				opCodeBytes = append(opCodeBytes, tr.Token().concrete...)
+				if j == 0 && tr.Token().kind == tokenKindFlags {
+					attributeTokens = 2
+				}
 			}
 			// inject newline after opcodes
 			opCodeBytes = append(opCodeBytes, '\n')
@@ -127,14 +132,16 @@ tokenLoop:
 			deprecatedBytes = append(deprecatedBytes, '\n')
 			enumBytes = append(enumBytes, deprecatedBytes...)
 		case tokenKindIdent:
-			// <ID> = <NUM>;
+			// <ID> = <NUM>;  or, in a flags enum,  <ID> = <EXPR>;
 			optBytes := append([]byte{'\t'}, t.concrete...)
-			for j := 0; j < 2; j++ {
-				optBytes = append(optBytes, ' ')
-				tr.Next()
+			afterOpenParen := false
+			for tr.Next() && tr.Token().kind != tokenKindSemicolon {
+				if !afterOpenParen && tr.Token().kind != tokenKindCloseParen {
+					optBytes = append(optBytes, ' ')
+				}
 				optBytes = append(optBytes, tr.Token().concrete...)
+				afterOpenParen = tr.Token().kind == tokenKindOpenParen
 			}
-			tr.Next()
 			optBytes = append(optBytes, []byte(";\n")...)
 			enumBytes = append(enumBytes, optBytes...)
 		case tokenKindCloseCurly:
